@@ -172,12 +172,28 @@ pub fn drive_family<'a, R: Reader<Offset = usize> + 'a>(
     }
 }
 
+/// Knob `fscope` = n > 0: faults fire only inside the n-th non-empty section of the case.
+pub fn fault_scope(case: &Case) -> Option<(u64, u64)> {
+    let n = case.knob("fscope", 0);
+    if n <= 0 {
+        return None;
+    }
+    let secs: Vec<&Vec<u8>> = case.secs.values().filter(|v| !v.is_empty()).collect();
+    if secs.is_empty() {
+        return None;
+    }
+    let v = secs[(n as usize - 1) % secs.len()];
+    let lo = v.as_ptr() as u64;
+    Some((lo, lo + v.len() as u64))
+}
+
 /// Reader-kind dispatch (knob `rk`).
 pub fn drive_case<'a>(case: &'a Case, ctx: &mut Ctx<'_>) {
     let endian = endian_of(case);
     match case.knob("rk", 0) {
         0 => {
             let sim = ctx.sim.clone();
+            sim.set_scope(fault_scope(case));
             let mk = move |b: &'a [u8]| FaultReader::new(EndianSlice::new(b, endian), sim.clone());
             drive_family(&mk, case, ctx)
         }
